@@ -25,7 +25,7 @@ use std::sync::{Arc, Condvar, Mutex, Once};
 use std::time::{Duration, Instant};
 use vh_common::{ModelProc, join};
 
-const T_BLOCK: Duration = Duration::from_millis(25);
+const T_BLOCK: Duration = Duration::from_millis(20);
 const T_STUCK: Duration = Duration::from_secs(5);
 
 #[derive(Clone, Debug, PartialEq)]
@@ -228,7 +228,8 @@ pub enum Outcome {
     Stuck(String),
 }
 
-type BlockCache = HashMap<Vec<String>, BTreeSet<usize>>;
+/// positions → (threads seen blocked twice there, threads seen blocked once)
+pub type BlockCache = HashMap<Vec<String>, (BTreeSet<usize>, BTreeSet<usize>)>;
 
 pub fn fresh_index(case: &Case) -> Idx {
     let idx = Idx::new("c10x".into(), Some(BTreeConfig { bucket_overload_size: 64, allow_duplicates: !case.unique }));
@@ -302,7 +303,7 @@ pub fn run_schedule(case: &Case, prefix: &[usize], cache: &mut BlockCache) -> Ou
         if parked.is_empty() {
             break;
         }
-        let blocked = cache.get(&positions).cloned().unwrap_or_default();
+        let blocked = cache.get(&positions).map(|x| x.0.clone()).unwrap_or_default();
         let choices: Vec<usize> = parked.iter().map(|x| x.0).filter(|t| !blocked.contains(t)).collect();
         if choices.is_empty() {
             abort(&sess, handles);
@@ -319,7 +320,9 @@ pub fn run_schedule(case: &Case, prefix: &[usize], cache: &mut BlockCache) -> Ou
             choices[0]
         };
         let from_tag = parked.iter().find(|x| x.0 == pick).unwrap().1;
-        let may_block = from_tag.ends_with(".0");
+        // Only the mutation gate is held across yield points, so a thread can only be blocked when it
+        // is about to take the gate (a `.0` point) while another thread is inside an operation.
+        let may_block = from_tag.ends_with(".0") && parked.iter().any(|x| x.0 != pick && !x.1.ends_with(".0"));
         // release `pick`, wait for it to park again or finish
         let arrived = {
             let mut g = sess.m.lock().unwrap();
@@ -341,7 +344,11 @@ pub fn run_schedule(case: &Case, prefix: &[usize], cache: &mut BlockCache) -> Ou
         };
         match arrived {
             None if may_block => {
-                cache.entry(positions).or_default().insert(pick);
+                // believed only when observed twice at the same positions (a slow thread is not a blocked one)
+                let e = cache.entry(positions).or_default();
+                if !e.1.insert(pick) {
+                    e.0.insert(pick);
+                }
                 abort(&sess, handles);
                 return Outcome::Retry;
             }
@@ -810,6 +817,12 @@ pub fn cases(thorough: bool) -> Vec<Case> {
     ];
     if thorough {
         v.extend(vec![
+            // longer programs, arrays, batch update
+            c(false, vec![COp::Ins(1, 5)], vec![vec![COp::Rem(1, 5), COp::Ins(1, 5), COp::Rem(1, 5)], vec![COp::Ins(1, 5), COp::Rem(1, 5)]]),
+            c(false, vec![], vec![vec![COp::Insa(1, vec![5, 6])], vec![COp::Rema(1, vec![6, 5])]]),
+            c(false, vec![COp::Ins(1, 5)], vec![vec![COp::Upd(1, vec![5], vec![6])], vec![COp::Ins(2, 5), COp::Rem(2, 5)]]),
+            c(false, full_bucket(), vec![vec![COp::Insa(B + 1, vec![7, 8])], vec![COp::Ins(B + 2, 9)]]),
+            c(true, vec![], vec![vec![COp::Insa(1, vec![5, 6])], vec![COp::Insa(2, vec![6, 5])]]),
             // three threads
             c(false, vec![], vec![vec![COp::Ins(1, 5)], vec![COp::Rem(1, 5)], vec![COp::Ins(2, 5)]]),
             c(false, vec![COp::Ins(1, 5)], vec![vec![COp::Rem(1, 5)], vec![COp::Ins(2, 5)], vec![COp::Rem(2, 5)]]),
@@ -819,12 +832,6 @@ pub fn cases(thorough: bool) -> Vec<Case> {
             c(false, full_bucket(), vec![vec![COp::Ins(B, 5)], vec![COp::Rem(B, 5)], vec![COp::Ins(B + 1, 5)]]),
             c(false, full_bucket(), vec![vec![COp::Ins(B + 1, 1)], vec![COp::Ins(B + 2, 1)], vec![COp::Rem(B, 1)]]),
             c(false, two_buckets(), vec![vec![COp::Compact], vec![COp::Compact], vec![COp::Ins(1, 9)]]),
-            // longer programs, arrays, batch update
-            c(false, vec![COp::Ins(1, 5)], vec![vec![COp::Rem(1, 5), COp::Ins(1, 5), COp::Rem(1, 5)], vec![COp::Ins(1, 5), COp::Rem(1, 5)]]),
-            c(false, vec![], vec![vec![COp::Insa(1, vec![5, 6])], vec![COp::Rema(1, vec![6, 5])]]),
-            c(false, vec![COp::Ins(1, 5)], vec![vec![COp::Upd(1, vec![5], vec![6])], vec![COp::Ins(2, 5), COp::Rem(2, 5)]]),
-            c(false, full_bucket(), vec![vec![COp::Insa(B + 1, vec![7, 8])], vec![COp::Ins(B + 2, 9)]]),
-            c(true, vec![], vec![vec![COp::Insa(1, vec![5, 6])], vec![COp::Insa(2, vec![6, 5])]]),
         ]);
     }
     v
